@@ -54,6 +54,8 @@ def collection_entries(name, mps):
         e = [(1, 0, 1), (2, 0, 2)]
     elif name == "mixed":      # fixed + runtime descriptors (for the multiplexer / distributed handler)
         e = [(1, 0, 18), (2, 0, 2 * m), (3, 0, 4), (3, 1, m, True), (3, 4, m + 2, True), (3, 6, 2 * m), (6, 0, 10, True)]
+    elif name == "empty":      # a zero-length descriptor between others (the data stage is then a single zero-length packet)
+        e = [(1, 0, 18), (2, 0, 0), (3, 0, 4), (3, 1, 0)]
     elif name == "big":        # several hundred bytes
         e = [(1, 0, 18), (2, 0, 448), (3, 0, 4), (3, 9, 321), (15, 0, 256)]
     else:
@@ -99,7 +101,7 @@ def request_menu(entries, mps, tier):
     reqs = []
     for t, i, data, _ in entries:
         n = len(data)
-        ws = {1, mps - 1, mps, mps + 1, n - 1, n, n + 1, 2 * mps, 0xFFFF}
+        ws = {1, mps - 1, mps, mps + 1, n - 1, n, n + 1, 2 * mps, 0xFFFF}      # (wLength 0 is never seen by the handler, see assumptions)
         if tier == "thorough": ws |= {2, 2 * mps + 1, 3 * mps, n + mps, 0x7FF, 0x800, 0x100}
         for w in sorted(ws):
             if 0 < w <= 0xFFFF: reqs.append((t, i, w))
@@ -160,7 +162,7 @@ def configs(tier):
         sa("block", "dense", 16); sa("dist", "dense", 32)
         sa("mux", "mixed", 8); sa("mux", "mixed", 16); sa("dist", "mixed", 16)
         sa("block", "single", 8); sa("dist", "single", 8)
-        sa("dist", "tiny", 8)
+        sa("dist", "tiny", 8); sa("block", "empty", 8)
         cs.append(dict(kind="device", handler="block", gap=1, pace=1, transfers=2, lost=1))
         cs.append(dict(kind="device", handler="dist", gap=1, pace=1, transfers=2, lost=1))
         cs.append(dict(kind="device", handler="mux", gap=1, pace=1, transfers=2, lost=1))
@@ -170,7 +172,7 @@ def configs(tier):
                 sa("block", coll, mps); sa("dist", coll, mps)
             sa("mux", "mixed", mps); sa("dist", "mixed", mps)
         for h in ("block", "dist"):
-            sa(h, "single", 8); sa(h, "single", 64); sa(h, "tiny", 8); sa(h, "big", 64); sa(h, "big", 32)
+            sa(h, "single", 8); sa(h, "single", 64); sa(h, "tiny", 8); sa(h, "big", 64); sa(h, "big", 32); sa(h, "empty", 8)
         for h in ("block", "dist", "mux"):
             cs.append(dict(kind="device", handler=h, gap=1, pace=1, transfers=2, lost=2))
             cs.append(dict(kind="device", handler=h, gap=3, pace=2, transfers=2, lost=1))
